@@ -720,6 +720,25 @@ def shrink(spec, v, budget_s=20):
             if w:
                 cur, curv, changed = s2, w, True
                 break
+    # then the devices: drop every component that is not needed for the failure
+    dev = dict(curv.get("dev") or {})
+    for comp in [("eol", None), ("copy", None)] + [("env", e) for e in list(dev.get("env", []))]:
+        if time.time() - t0 > budget_s + 10 or not dev or dev.get("midchar"):
+            break
+        d2 = dict(dev)
+        if comp[1] is None:
+            if comp[0] not in d2:
+                continue
+            d2.pop(comp[0])
+        else:
+            d2["env"] = [e for e in d2.get("env", []) if e != comp[1]]
+            if not d2["env"]:
+                d2.pop("env")
+        if not d2:
+            continue        # the plain form is judged by the plain enumeration
+        w = check_one(cur, dict(curv, dev=d2))
+        if w:
+            dev, curv = d2, w
     return cur, curv
 
 
